@@ -27,10 +27,13 @@ import (
 )
 
 type checker struct {
-	b     *Batch
-	res   *wkpool.CaseResult
-	seen  map[string]bool
-	rjson json.RawMessage
+	b       *Batch
+	dropped map[int]bool
+	orig    *Batch // as enumerated (generated spans not materialised): this is what a replay file carries
+	offs    [][2]int
+	res     *wkpool.CaseResult
+	seen    map[string]bool
+	rjson   json.RawMessage
 }
 
 func (c *checker) viol(class, format string, a ...any) {
@@ -44,7 +47,7 @@ func (c *checker) viol(class, format string, a ...any) {
 	}
 	c.seen[k] = true
 	if c.rjson == nil {
-		c.rjson, _ = json.Marshal(c.b)
+		c.rjson, _ = json.Marshal(c.orig)
 	}
 	c.res.Viols = append(c.res.Viols, wkpool.Viol{Class: class, What: what, Replay: c.rjson})
 }
@@ -277,12 +280,28 @@ func (b *Batch) ndCarried(i int, field string) (string, bool) {
 	return "", false
 }
 
+// ndDropped: deviant rule "the NDJSON decoder stops at the first line that does not fit bufio.Scanner's 64 KiB token
+// limit and reports success" — line i is lost iff it or an earlier line is that long.
+func (c *checker) ndDropped(i int) bool {
+	if !c.b.ND || c.b.Proto != "zipkin" {
+		return false
+	}
+	for j := 0; j <= i && j < len(c.offs); j++ {
+		if c.offs[j][1]-c.offs[j][0] >= 64*1024 {
+			return true
+		}
+	}
+	return false
+}
+
 // ---- the check ---------------------------------------------------------------------------------------------------
 
-func checkBatch(b *Batch) *wkpool.CaseResult {
-	c := &checker{b: b, res: &wkpool.CaseResult{Counters: map[string]int64{}}, seen: map[string]bool{}}
+func checkBatch(orig *Batch) *wkpool.CaseResult {
+	b := orig.expanded()
+	c := &checker{b: b, orig: orig, dropped: map[int]bool{}, res: &wkpool.CaseResult{Counters: map[string]int64{}}, seen: map[string]bool{}}
 	res := c.res
 	var body []byte
+	var offs [][2]int
 	if b.Proto == "otlp" {
 		var err error
 		body, err = renderOTLP(b)
@@ -291,11 +310,16 @@ func checkBatch(b *Batch) *wkpool.CaseResult {
 			return res
 		}
 	} else {
-		body = renderZipkin(b)
+		body, offs = renderZipkinOffsets(b)
 	}
+	c.offs = offs
+	cuts := deliveryCuts(b, body, offs)
 	odd := strings.HasSuffix(b.Family, "-odd")
 	res.Key = shortHash(b.shapeKey())
-	p := parse(b, body)
+	// All responses of the parser are collected first and only then turned into blocks: the rows are looked at when
+	// a downstream consumer would use them at the latest (after the whole body was decoded), so a slice the parser
+	// retained from a buffer it reuses shows up as a corrupted row.
+	p := parse(b, body, cuts)
 	res.RealTraces = 1
 	if p.err != nil {
 		cls := "rejected"
@@ -449,6 +473,11 @@ func (c *checker) checkTraceRows(st *stored, exps []*expect) {
 	for i, e := range exps {
 		j := match[i]
 		if j < 0 {
+			if c.ndDropped(i) {
+				c.dropped[i] = true
+				c.viol("zipkin_nd_line_over_scanner_limit_dropped_silently", "line %d: the body is acknowledged but this span has no row: a line of >= 64 KiB at or before it ends the NDJSON decoder without an error", i)
+				continue
+			}
 			c.viol(p+"_trace_row_missing", "span %d (trace %s span %s): no trace row with these ids; rows=%s", i, hx(e.row.TraceID), hx(e.row.SpanID), traceRowsBrief(st.traces))
 			continue
 		}
@@ -524,6 +553,9 @@ func (c *checker) checkTagRows(st *stored, exps []*expect) {
 		modelIDs[idsOf(e)] = true
 	}
 	for i, e := range exps {
+		if c.dropped[i] {
+			continue
+		}
 		// candidate rows: same ids
 		var cand []int
 		for k, t := range st.tags {
@@ -776,6 +808,9 @@ func (c *checker) checkReadBack(st *stored, exps []*expect) int {
 			if !ok {
 				j = -1
 			}
+			if j < 0 && c.dropped[i] {
+				continue
+			}
 			if j < 0 {
 				empty := false
 				for _, r := range st.traces {
@@ -788,6 +823,8 @@ func (c *checker) checkReadBack(st *stored, exps []*expect) int {
 					c.viol("zipkin_nd_payload_not_stored", "line %d: span is not returned by the trace read path (a stored payload of this trace is empty)", i)
 				case empty:
 					c.viol(p+"_trace_row_payload_empty", "span %d is not returned by the trace read path (a stored payload of this trace is empty)", i)
+				case p == "zipkin" && c.payloadGarbled(st, e):
+					c.viol("zipkin_stored_payload_is_not_the_pushed_span", "span %d (trace %s span %s): the stored payload is not the JSON of this span any more (%s) and the trace read path does not return it", i, hx(tid), hx(e.row.SpanID), c.payloadBrief(st, e))
 				default:
 					c.viol(p+"_readback_span_missing", "span %d (trace %s span %s) is not returned by the trace read path; returned %d spans", i, hx(tid), hx(e.row.SpanID), len(spans))
 				}
@@ -953,4 +990,33 @@ func avEqualPB(m AV, g *commonpb.AnyValue) bool {
 		return true
 	}
 	return false
+}
+
+// payloadGarbled: the row of this span holds a payload that is not valid JSON or names other ids (classification
+// aid for retained-buffer bugs; the verdict itself comes from the read path).
+func (c *checker) payloadGarbled(st *stored, e *expect) bool {
+	for _, r := range st.traces {
+		if r.TraceID == e.row.TraceID && r.SpanID == e.row.SpanID {
+			var doc struct {
+				ID string `json:"id"`
+			}
+			if err := json.Unmarshal([]byte(r.Payload), &doc); err != nil || !strings.EqualFold(doc.ID, hx(e.row.SpanID)) {
+				return true
+			}
+		}
+	}
+	return false
+}
+
+func (c *checker) payloadBrief(st *stored, e *expect) string {
+	for _, r := range st.traces {
+		if r.TraceID == e.row.TraceID && r.SpanID == e.row.SpanID {
+			s := r.Payload
+			if len(s) > 80 {
+				s = s[:80] + "…"
+			}
+			return strconv.Quote(s)
+		}
+	}
+	return "no row"
 }
